@@ -1,23 +1,32 @@
 """Frame verification: "compiling never writes to the caller's sources".
 
-A whole-program, flow-insensitive, allocation-site based points-to / effect analysis over the REAL
-ASTs of every ufo2ft function reachable from a set of roots, run under the property's precondition
-(`inplace` is False wherever that name occurs — justified by a syntactic obligation: no code in
-Lib/ufo2ft ever binds `inplace` to anything but a forwarded `inplace`/False).
+A whole-program allocation-site based points-to / effect analysis over the REAL ASTs of every function of the analysed
+package that is reachable from a set of roots, run under the property's precondition (`inplace` is False wherever that
+name occurs -- justified by a syntactic obligation checked by the driver: no code ever binds `inplace` to anything but
+a forwarded `inplace` / False).
 
-Abstract objects: SRC (everything reachable from what the caller passed in), GS (a glyph set passed
-separately to a filter), one object per allocation site (repo class instances, containers, library
-objects), class/function/module objects, NONE.  Every *mutation site* (attribute/subscript store or
-delete, augmented assignment of a container, mutator method, drawing into a pen, setattr, …) is one
-frame obligation `SRC not in points-to(target)`.  It is discharged when the fixpoint of the analysis
-has no SRC in the target's points-to set; otherwise the site is reported with a witness chain.
+Abstract objects: the source blobs SRC (everything reachable from what the caller passed in; for designspace roots
+SRC.font stands for the fonts attached to the document), GS (a glyph set passed separately to a filter), one object
+per allocation site and context (instances of analysed classes, containers, library objects), class / function /
+module objects, the concrete objects that exist at module and class level after import, NONE.  Numbers and strings are
+not objects.  Every *mutation site* (attribute / subscript store or delete, augmented assignment of a container,
+mutator method, drawing into a pen, setattr, catalogued mutating library call) is one frame obligation
+`SRC not in points-to(target)`; it is discharged when the fixpoint has no source blob in the target's points-to set,
+otherwise the site is an alarm.  Mutations of module- / class-level objects are collected separately (global state).
 
-The result per function (its mutation sites and what they may touch) is the function's derived
-*effect summary*; /verif/contracts/frames.json pins the summaries, and a run requires derived ⊑ pinned.
+The heap is flow-insensitive; local variables are resolved by reaching definitions (class ReachingDefs).  Precision
+comes from cloning functions per calling context (constant arguments, number of *args, constructor per allocation
+site), from tests decided on the fixpoint and re-validated by the fixpoint computed under them (solve()), from
+narrowing, and from a few temporal devices (ctor_versioned, guard_established, stored_after).  EVERY such device
+carries, at the code, the argument why no concrete execution leaves the abstraction, and has must-alarm twins in
+selftest/frames_cases (run by selftest/frames_run.py).
 
-Assumptions (listed in the evidence): library calls do not mutate their arguments except through the
-catalogued mutator / pen-protocol method names; user-supplied filter / writer / compiler subclasses are
-not analysed; dynamic attribute names (getattr with computed names) are resolved conservatively.
+A run that does not converge, or that meets a reachable construct it does not model (Analysis.unsupported), claims
+nothing: the driver reports these as undischarged obligations.
+
+Assumptions (listed in the evidence by the hooks): the catalogues below model LIBRARY behaviour (which methods /
+functions mutate what, which return new objects, the pen protocol, designspace copy semantics); user-supplied filter /
+writer / compiler subclasses are not analysed; class- and module-level state at call time is the state after import.
 """
 from __future__ import annotations
 
@@ -50,6 +59,8 @@ ARG_MUTATING_METHODS = {"extractGlyph", "extractInfo", "extractKerning"}
 #   (fontTools/designspaceLib/__init__.py) -- it writes s.font for the sources whose font is None and nothing else.
 # method -> (collection attribute of the receiver, attribute of the elements)
 GUARDED_MUTATORS = {"loadSourceFonts": ("sources", "font")}
+# mutators that create a child object, put it into the receiver and return it
+CREATOR_METHODS = {"newGlyph", "newLayer", "addGlyph", "insertGlyph", "addAxisDescriptor", "addSourceDescriptor", "addInstanceDescriptor", "appendGuideline"}
 PEN_GETTERS = {"getPen", "getPointPen"}
 PEN_METHODS = {
     "moveTo", "lineTo", "curveTo", "qCurveTo", "closePath", "endPath", "addComponent", "beginPath", "addPoint",
@@ -2301,6 +2312,11 @@ class Analysis:
     def elements_unkeyed(self, o):
         """what a subscript / .get() / .values() of o can return (not what iterating it yields: iter_elements)"""
         out = set(self.F[(o, "[]")])
+        if o.kind == "ext":
+            # what a library object holds without analysed code having put it there (the glyph made by font.newGlyph(..),
+            # the tables of a loaded TTFont, the values of a dict returned by a library function, ...) is represented by
+            # ONE extra object per library object, its "contents"
+            out.add(self.rep_of(o))
         if o.shadow_of is not None:
             # the containers of that field after their contents were replaced: everything that was put into them
             # except by statements that certainly ran before they escaped from their allocating function
@@ -2313,6 +2329,15 @@ class Analysis:
             if not hasattr(o.py, "__getitem__"):
                 out |= self.iter_protocol(o)  # a plain iterable: its "elements" are what it yields
         return out
+
+    def rep_of(self, o):
+        """the representative of everything the library object o contains that analysed code did not put there itself. It is a
+        library object of its own (so that what is later stored INTO such a contained object -- font.setGlyphOrder(names) on
+        a TTFont taken out of a dict -- does not become an element of the container); its own contents are itself."""
+        if isinstance(o.key, tuple) and o.key and o.key[-1] == "contents":
+            return o
+        k = (o.key + ("contents",)) if isinstance(o.key, tuple) else (o.key, "contents")
+        return self.obj("ext", k, None, o.label + " (contents)")
 
     def iter_protocol(self, o):
         out = set(self.F[(o, "dunder:__next__")])
@@ -2645,6 +2670,18 @@ class Analysis:
             if name in MUTATORS or name in PEN_METHODS:
                 self.mutate({o}, node, f".{name}()")
                 self.add(self.F[(o, "[]")], A)
+                if name in CREATOR_METHODS:
+                    return {o, self.rep_of(o)}  # the new child is one of the things o contains
+                if name in ("update", "extend", "setdefault", "difference_update", "intersection_update", "symmetric_difference_update"):
+                    # dict.update(mapping / pairs), list.extend(iterable), ...: what the ARGUMENT holds becomes held by o
+                    for a_ in A:
+                        el = self.elements({a_})
+                        t_ = self.pytype_of(a_) if a_.kind in ("inst", "cont") else None
+                        if name == "update" and not (t_ is not None and issubclass(t_, dict)):
+                            el = el | self.pair_values(el)  # possibly an iterable of (key, value) pairs
+                        self.add(self.F[(o, "[]")], el)
+                    for kk, (_, s_) in kwargs.items():
+                        self.add(self.F[(o, "[]")], s_)
                 return {o}
             if name in PEN_GETTERS:
                 return self.new_ext(node, {o}, through=True, target={o})
@@ -2652,11 +2689,10 @@ class Analysis:
                 for _, s in args[:1]:
                     self.mutate_through(s, node, f".{name}(pen)")
                 return set()
-            has_rep = ("ext", o.key + ("contents",)) in self.objs
             if name in ("get", "__getitem__", "values", "keys"):
-                return self.elements({o}) | (set() if has_rep else {o})
+                return self.elements({o}) | ({self.NONE} if name == "get" and len(args) < 2 else set()) | {x for _, s_ in args[1:] for x in s_}
             if name == "items":
-                return self.rows(node, [set(), self.elements({o}) | (set() if has_rep else {o})], "items")
+                return self.rows(node, [set(), self.elements({o})], "items")
             if name in ("findDefault", "getSourceByName") or name.startswith("find"):
                 return {o}
             if name == "deepcopyExceptFonts":
@@ -3274,15 +3310,7 @@ class Analysis:
             return self.new_ext(node, set(), through=False)
         if name in FRESH_FUNCS:
             self.trusted_fresh.add(name)  # catalogue: new object; arguments neither kept, mutated nor called
-            r = self.new_ext(node, set(), through=False)
-            # what the new object CONTAINS (the values of a returned dict, the items of a returned list) are new objects as
-            # well; they get a representative of their own, so that something stored later INTO one of them (e.g.
-            # font.setGlyphOrder(names) on a TTFont taken out of the returned dict) is not mistaken for an element of the
-            # returned container itself
-            (o,) = r
-            rep = self.obj("ext", o.key + ("contents",), None, o.label + " (contents)")
-            self.add(self.F[(o, "[]")], {rep})
-            return r
+            return self.new_ext(node, set(), through=False)
         # analysed callables handed to any other library code (key=, map(f, ..), callbacks) may be invoked by it,
         # with anything reachable from the other arguments; what they return may end up in the library's result
         cb_results = self.invoke_callbacks(A, node, ctx)
@@ -4112,7 +4140,11 @@ class Analysis:
 
     def _reset(self):
         self.V.clear(); self.F.clear(); self.R.clear(); self.Y.clear()
-        keep = {k: v for k, v in self.objs.items()  if k[0] in ("SRC", "GS", "NONE") or k == ("cont", "EXC") or (k[0] == "inst" and isinstance(k[1], tuple) and k[1][-1] == "root")}
+        rooted = {id(o) for _fn, pos, kw in self.roots for s_ in list(pos) + list(kw.values()) for o in s_}
+        # (objects handed to a root keep their identity, so that a root argument obtained from an earlier run -- e.g. the
+        # instance returned by a factory root -- IS the object the next run allocates at the same site)
+        keep = {k: v for k, v in self.objs.items() if k[0] in ("SRC", "GS", "NONE") or k == ("cont", "EXC") or id(v) in rooted
+                or (k[0] == "inst" and isinstance(k[1], tuple) and k[1][-1] == "root")}
         self.objs = keep
         self.ctxs.clear(); self.alarms.clear(); self.sites.clear(); self.globals_mut.clear()
         self.unknown_calls.clear(); self.cut_hits.clear(); self.repo_calls.clear(); self.strong_reads.clear()
